@@ -282,6 +282,7 @@ fn update_case(prop: &str, rng: &mut Rng, idx: u64) -> CaseRec {
         doc = doc.replace('\n', "\r\n");
     }
     let mut impl_out = "skip".to_string();
+    let mut c10_op: Option<(String, String)> = None;
     let parsed = parse(ParserType::Markdown, &doc);
     if let Ok(tcs) = &parsed {
         if tcs.len() == outputs.len() && !tcs.is_empty() {
@@ -299,6 +300,9 @@ fn update_case(prop: &str, rng: &mut Rng, idx: u64) -> CaseRec {
             let outcomes = mk_outcomes(tcs);
             let refs: Vec<&Outcome> = outcomes.iter().collect();
             let passing: Vec<bool> = outcomes.iter().map(|o| o.result.is_ok()).collect();
+            if prop == "C10" {
+                c10_op = Some(c10_correspondence(&doc, &refs));
+            }
             match guarded(|| MarkdownUpdateGenerator::default().generate_update(&doc, &refs)) {
                 Err(p) => fails.push(("C10:update-panic".into(), p)),
                 Ok(Err(e)) => fails.push(("C10:update-error".into(), format!("{e:#}").chars().take(200).collect())),
@@ -366,6 +370,12 @@ fn update_case(prop: &str, rng: &mut Rng, idx: u64) -> CaseRec {
             }
         }
     }
+    if prop == "C10" {
+        // correspondence: the model has to reproduce the whole updated document from the original
+        // document and the text generated per outcome
+        let (op, out) = c10_op.unwrap_or(("oracle-only upd-skip".to_string(), "oracle-only".to_string()));
+        return CaseRec { op, impl_out: out, oracle_fail: keep(prop, fails), nontrivial: n_blocks >= 1, tags: vec![format!("update:blocks={n_blocks}"), format!("update:crlf={crlf}")] };
+    }
     CaseRec { op: format!("upd {}", hex(doc.as_bytes())), impl_out, oracle_fail: keep(prop, fails), nontrivial: n_blocks >= 1, tags: vec![format!("update:blocks={n_blocks}"), format!("update:crlf={crlf}")] }
 }
 
@@ -373,6 +383,7 @@ fn update_case(prop: &str, rng: &mut Rng, idx: u64) -> CaseRec {
 fn update_witness(prop: &str, name: &str, doc: &str, outputs: Vec<(Vec<u8>, i32)>) -> CaseRec {
     let mut fails = vec![];
     let mut impl_out = "skip".to_string();
+    let mut c10_op: Option<(String, String)> = None;
     if let Ok(tcs) = parse(ParserType::Markdown, doc) {
         let mk = |tcs: &Vec<TestCase>| -> Vec<Outcome> {
             tcs.iter().zip(outputs.iter()).map(|(tc, (out, code))| {
@@ -383,6 +394,9 @@ fn update_witness(prop: &str, name: &str, doc: &str, outputs: Vec<(Vec<u8>, i32)
         };
         let outcomes = mk(&tcs);
         let refs: Vec<&Outcome> = outcomes.iter().collect();
+        if prop == "C10" {
+            c10_op = Some(c10_correspondence(doc, &refs));
+        }
         if let Ok(Ok(updated)) = guarded(|| MarkdownUpdateGenerator::default().generate_update(doc, &refs)) {
             impl_out = "updated".into();
             if let Ok(tcs2) = parse(ParserType::Markdown, &updated) {
@@ -401,6 +415,10 @@ fn update_witness(prop: &str, name: &str, doc: &str, outputs: Vec<(Vec<u8>, i32)
                 }
             }
         }
+    }
+    if prop == "C10" {
+        let (op, out) = c10_op.unwrap_or(("oracle-only upd-skip".to_string(), "oracle-only".to_string()));
+        return CaseRec { op, impl_out: out, oracle_fail: keep(prop, fails), nontrivial: true, tags: vec![format!("update:witness={name}")] };
     }
     CaseRec { op: format!("upd {}", hex(doc.as_bytes())), impl_out, oracle_fail: keep(prop, fails), nontrivial: true, tags: vec![format!("update:witness={name}")] }
 }
@@ -440,6 +458,10 @@ fn outside_lines(doc: &str) -> Vec<String> {
 }
 
 pub fn run(ctx: &Ctx, prop: &str) {
+    if prop == "C10" {
+        // C10 is about `update` only: the `create` streams are C09's
+        return c10_run(ctx, prop);
+    }
     let seed = ctx.seed;
     let na = LINE_ALPHABET.len() as u64;
     let maxl = if ctx.thorough { 3 } else { 2 };
@@ -511,9 +533,416 @@ pub fn replay(prop: &str, op: &str) -> bool {
             }
             c.oracle_fail.is_empty()
         }
+        Some(&"upd") if prop == "C10" && parts.len() == 3 => c10_replay(parts[1], parts[2]),
         _ => {
             eprintln!("replay of `upd` ops: re-run the stream with the same VERIF_SEED");
             false
         }
     }
+}
+
+// ------------------------------------------------------------------------------------------------
+// C10: correspondence of `generate_update` with the Lean model (`Model/Update.lean`, op `upd`) and
+// direct oracles on arbitrary (also malformed) documents with synthetic outcomes
+// ------------------------------------------------------------------------------------------------
+
+/// the text `Outcome::generate_testcase` returns (crate-private), obtained through the public
+/// `create` generator, which wraps exactly that text into a fence: `[# title\n\n]<fence line>\n<text><backticks>\n`
+fn c10_generated_text(o: &Outcome) -> Option<String> {
+    let text = match guarded(|| MarkdownTestCaseGenerator::default().generate_testcases(&[o])) {
+        Ok(Ok(t)) => t,
+        _ => return None,
+    };
+    let prefix = if o.testcase.title.is_empty() { String::new() } else { format!("# {}\n\n", o.testcase.title) };
+    let rest = text.strip_prefix(prefix.as_str())?;
+    let n = rest.chars().take_while(|c| *c == '`').count();
+    let first_nl = rest.find('\n')?;
+    let end = rest.len().checked_sub(n + 1)?;
+    if end < first_nl + 1 || !rest.is_char_boundary(end) {
+        return None;
+    }
+    Some(rest[first_nl + 1..end].to_string())
+}
+
+/// canonical result of the real `generate_update`
+fn c10_canon(r: &Result<anyhow::Result<String>, String>) -> String {
+    match r {
+        Err(_) => "crash".into(),
+        Ok(Ok(t)) => format!("ok {}", hex(t.as_bytes())),
+        Ok(Err(e)) => {
+            // the outermost context names the test: "no outcome for testcase number N" / "testcase number N"
+            let top = e.to_string();
+            let num = |s: &str| s.trim().parse::<usize>().ok().and_then(|n| n.checked_sub(1));
+            if let Some(n) = top.strip_prefix("no outcome for testcase number ").and_then(num) {
+                format!("err no-outcome {n}")
+            } else if let Some(n) = top.strip_prefix("testcase number ").and_then(num) {
+                format!("err generate {n}")
+            } else {
+                "err other".into()
+            }
+        }
+    }
+}
+
+fn c10_gens(outcomes: &[&Outcome]) -> String {
+    if outcomes.is_empty() {
+        return "-".into();
+    }
+    outcomes
+        .iter()
+        .map(|o| match c10_generated_text(o) {
+            None => "!".to_string(),
+            Some(t) if t.is_empty() => "e".to_string(),
+            Some(t) => hex(t.as_bytes()),
+        })
+        .collect::<Vec<_>>()
+        .join(",")
+}
+
+/// (op, impl_out)
+fn c10_correspondence(doc: &str, outcomes: &[&Outcome]) -> (String, String) {
+    let r = guarded(|| MarkdownUpdateGenerator::default().generate_update(doc, outcomes));
+    (format!("upd {} {}", hex(doc.as_bytes()), c10_gens(outcomes)), c10_canon(&r))
+}
+
+/// Reference reading of a Markdown document, written from the documentation: front-matter is
+/// `---` … `---` in front of any content; a code block starts at a line of >= 3 backticks + info
+/// string and ends at the first line that starts with those backticks; the language is the info
+/// string up to a `{`, trimmed; everything unterminated extends to the end.
+#[derive(Debug, Clone, PartialEq)]
+enum RefSeg {
+    Line(String),
+    Front { body: Vec<String>, closed: bool },
+    Foreign(Vec<String>),
+    Scrut { opener: String, body: Vec<String>, closed: bool },
+}
+
+fn c10_fence(l: &str) -> Option<(usize, String)> {
+    let ticks = l.chars().take_while(|c| *c == '`').count();
+    if ticks < 3 {
+        return None;
+    }
+    let info = &l[ticks..];
+    let lang = info.split('{').next().unwrap_or("").trim();
+    Some((ticks, lang.to_string()))
+}
+
+fn c10_ref_segments(doc: &str) -> Vec<RefSeg> {
+    let lines: Vec<&str> = doc.lines().collect();
+    let mut segs = vec![];
+    let mut content = false;
+    let mut i = 0;
+    while i < lines.len() {
+        let l = lines[i];
+        i += 1;
+        if !content && l == "---" {
+            let mut body = vec![];
+            let mut closed = false;
+            while i < lines.len() {
+                let x = lines[i];
+                i += 1;
+                if x == "---" {
+                    closed = true;
+                    break;
+                }
+                body.push(x.to_string());
+            }
+            segs.push(RefSeg::Front { body, closed });
+        } else if let Some((ticks, lang)) = c10_fence(l) {
+            content = true;
+            let fence = "`".repeat(ticks);
+            let mut body = vec![];
+            let mut closed = false;
+            let mut closer = None;
+            while i < lines.len() {
+                let x = lines[i];
+                i += 1;
+                if x.starts_with(&fence) {
+                    closed = true;
+                    closer = Some(x.to_string());
+                    break;
+                }
+                body.push(x.to_string());
+            }
+            if lang == "scrut" {
+                segs.push(RefSeg::Scrut { opener: l.to_string(), body, closed });
+            } else {
+                let mut all = vec![l.to_string()];
+                all.extend(body);
+                all.extend(closer);
+                segs.push(RefSeg::Foreign(all));
+            }
+        } else {
+            if !l.trim().is_empty() {
+                content = true;
+            }
+            segs.push(RefSeg::Line(l.to_string()));
+        }
+    }
+    segs
+}
+
+/// lines outside scrut blocks; front-matter delimiters as written
+fn c10_outside(segs: &[RefSeg], normal_front: bool) -> Vec<String> {
+    let mut v = vec![];
+    for s in segs {
+        match s {
+            RefSeg::Line(l) => v.push(l.clone()),
+            RefSeg::Foreign(ls) => v.extend(ls.iter().cloned()),
+            RefSeg::Front { body, closed } => {
+                v.push("---".into());
+                v.extend(body.iter().cloned());
+                if normal_front && body.is_empty() {
+                    v.push(String::new());
+                }
+                if *closed || normal_front {
+                    v.push("---".into());
+                }
+            }
+            RefSeg::Scrut { .. } => {}
+        }
+    }
+    v
+}
+
+fn c10_comments(body: &[String]) -> Vec<String> {
+    body.iter().take_while(|l| l.starts_with('#')).cloned().collect()
+}
+
+/// synthetic outcomes; `kind` selects the situation
+fn c10_outcome(kind: u64, mk: &ExpectationMaker) -> Outcome {
+    use scrut::testcase::TestCaseError;
+    let (cmd, exps, out, code): (&str, Vec<&str>, &[u8], i32) = match kind {
+        0 => ("cmd", vec!["foo"], b"foo\n", 0),                       // pass
+        1 => ("cmd", vec!["foo"], b"bar\n", 0),                       // changed output
+        2 => ("cmd", vec!["foo"], b"foo\n", 3),                       // changed exit code
+        3 => ("multi\nline", vec!["a* (glob+)", "opt (?)"], b"a1\na2\n", 0), // pass, quantifiers kept
+        4 => ("cmd", vec![], b"````\nx\n`````y", 0),                  // backtick lines, no final newline
+        5 => ("cmd", vec!["foo"], b"foo\n", 0),                       // timeout (forced below)
+        6 => ("cmd", vec![], b"", 0),                                 // pass, no expectations
+        7 => ("cmd", vec!["```"], b"```\n", 0),                       // pass, expectation is a fence
+        _ => ("cmd", vec!["foo"], b"# not a comment\n---\n", 0),      // output that looks like Markdown
+    };
+    let testcase = TestCase {
+        title: "".into(),
+        shell_expression: cmd.into(),
+        expectations: exps.iter().map(|e| mk.parse(e).expect("expectation")).collect(),
+        exit_code: None,
+        line_number: 0,
+        config: TestCaseConfig::default_markdown(),
+    };
+    let output = Output { stdout: out.to_vec().into(), stderr: vec![].into(), exit_code: ExitStatus::Code(code) };
+    let result = match kind {
+        5 => Err(TestCaseError::Timeout),
+        _ => testcase.validate(&output),
+    };
+    Outcome { location: None, output, testcase, escaping: Escaper::Unicode, format: ParserType::Markdown, result }
+}
+
+/// arbitrary document + synthetic outcomes: correspondence + oracles (same outcomes twice)
+fn c10_case(prop: &str, doc: &str, kinds: &[u64], tag: &str) -> CaseRec {
+    let mk = ExpectationMaker::new(RuleRegistry::default());
+    let outcomes: Vec<Outcome> = kinds.iter().map(|k| c10_outcome(*k, &mk)).collect();
+    let refs: Vec<&Outcome> = outcomes.iter().collect();
+    let mut fails: Vec<(String, String)> = vec![];
+    let r = guarded(|| MarkdownUpdateGenerator::default().generate_update(doc, &refs));
+    let impl_out = c10_canon(&r);
+    let segs = c10_ref_segments(doc);
+    let n_scrut = segs.iter().filter(|s| matches!(s, RefSeg::Scrut { .. })).count();
+    let n_code = segs.iter().filter(|s| matches!(s, RefSeg::Scrut { body, .. } if body.len() > c10_comments(body).len())).count();
+    let mut verdict = "error";
+    match &r {
+        Err(p) => fails.push(("C10:update-panic".into(), format!("{p} on {:?}", doc))),
+        Ok(Err(_)) => {
+            // legitimate only when an outcome is missing or cannot be rendered
+            let expected = !kinds.is_empty() && (kinds.len() < n_code || kinds.iter().take(n_code).any(|k| *k == 5));
+            if !expected {
+                fails.push(("C10:update-error".into(), format!("{impl_out} on {:?} with {} outcomes", doc, kinds.len())));
+            }
+        }
+        Ok(Ok(updated)) if kinds.is_empty() => {
+            verdict = "untouched";
+            if updated != doc {
+                fails.push(("C10:no-outcomes-changed-document".into(), format!("{:?}", doc)));
+            }
+        }
+        Ok(Ok(updated)) => {
+            verdict = "updated";
+            let segs2 = c10_ref_segments(updated);
+            // (a) lines outside scrut blocks
+            let stray_cr = doc.lines().any(|l| l.ends_with('\r'));
+            let o1 = c10_outside(&segs, false);
+            let o2 = c10_outside(&segs2, false);
+            if o1 != o2 {
+                let front_empty = segs.iter().any(|s| matches!(s, RefSeg::Front { body, .. } if body.is_empty()));
+                let front_open = segs.iter().any(|s| matches!(s, RefSeg::Front { closed: false, .. }));
+                let class = if c10_outside(&segs, true) == o2 && (front_empty || front_open) {
+                    if front_empty { "C10:front-matter-empty-gains-blank-line" } else { "C10:front-matter-unterminated-gains-delimiter" }
+                } else if stray_cr {
+                    "C10:stray-carriage-return-dropped"
+                } else {
+                    "C10:outside-lines-changed"
+                };
+                fails.push((class.into(), format!("document {:?}: outside lines {:?} became {:?}", doc, o1, o2).chars().take(300).collect()));
+            }
+            // (b) blocks: count, order, language + config, comments
+            let b1: Vec<&RefSeg> = segs.iter().filter(|s| matches!(s, RefSeg::Scrut { .. })).collect();
+            let b2: Vec<&RefSeg> = segs2.iter().filter(|s| matches!(s, RefSeg::Scrut { .. })).collect();
+            if b1.len() != b2.len() {
+                if !stray_cr {
+                    fails.push(("C10:block-count-changed".into(), format!("document {:?}: {} scrut blocks became {}", doc, b1.len(), b2.len())));
+                }
+            } else {
+                for (k, (x, y)) in b1.iter().zip(b2.iter()).enumerate() {
+                    if let (RefSeg::Scrut { opener: oa, body: ba, .. }, RefSeg::Scrut { opener: ob, body: bb, closed }) = (x, y) {
+                        let info = |o: &str| -> (String, Option<String>) {
+                            let t = o.trim_start_matches('`');
+                            match t.find('{') {
+                                Some(p) => {
+                                    let c = t[p..].trim_end();
+                                    let inner = c.strip_prefix('{').and_then(|c| c.strip_suffix('}')).filter(|c| !c.is_empty());
+                                    (t[..p].trim().to_string(), inner.map(|c| c.trim_start().to_string()))
+                                }
+                                None => (t.trim().to_string(), None),
+                            }
+                        };
+                        let (ia, ib) = (info(oa), info(ob));
+                        if ia.0 != ib.0 {
+                            fails.push(("C10:block-language-changed".into(), format!("block {k}: {:?} -> {:?}", oa, ob)));
+                        } else if ia.1 != ib.1 {
+                            let blank = ia.1.as_deref() == Some("") && ib.1.is_none();
+                            if !blank {
+                                fails.push(("C10:block-config-changed".into(), format!("block {k}: {:?} -> {:?}", oa, ob)));
+                            }
+                        }
+                        let ca = c10_comments(ba);
+                        if bb.len() < ca.len() || bb[..ca.len()] != ca[..] {
+                            if !stray_cr {
+                                fails.push(("C10:block-comments-changed".into(), format!("block {k}: {:?} -> {:?}", ba, bb)));
+                            }
+                        }
+                        if !closed {
+                            fails.push(("C10:block-unterminated-after-update".into(), format!("block {k} of {:?}", updated)));
+                        }
+                    }
+                }
+            }
+            // (d) idempotence under the same generated texts: the same outcomes once more
+            match guarded(|| MarkdownUpdateGenerator::default().generate_update(updated, &refs)) {
+                Ok(Ok(again)) => {
+                    if &again != updated {
+                        let blank_cfg = segs.iter().any(|s| match s {
+                            RefSeg::Scrut { opener, .. } => {
+                                let t = opener.trim_end();
+                                match t.find('{') {
+                                    Some(p) => t.ends_with('}') && t.len() > p + 2 && t[p + 1..t.len() - 1].trim().is_empty(),
+                                    None => false,
+                                }
+                            }
+                            _ => false,
+                        });
+                        let class = if stray_cr {
+                            "C10:not-idempotent-stray-carriage-return"
+                        } else if blank_cfg {
+                            "C10:not-idempotent-blank-inline-config"
+                        } else {
+                            "C10:not-idempotent-same-outcomes"
+                        };
+                        fails.push((class.into(), format!("document {:?}: first update {:?}, second update {:?}", doc, updated, again).chars().take(400).collect()));
+                    }
+                }
+                other => fails.push(("C10:second-update-fails".into(), format!("document {:?}: {}", doc, c10_canon(&other)))),
+            }
+        }
+    }
+    CaseRec {
+        op: format!("upd {} {}", hex(doc.as_bytes()), c10_gens(&refs)),
+        impl_out,
+        oracle_fail: keep(prop, fails),
+        nontrivial: n_scrut >= 1 && !kinds.is_empty(),
+        tags: vec![tag.to_string(), format!("c10:verdict={verdict}"), format!("c10:scrut-blocks={}", n_scrut.min(4)), format!("c10:outcomes={}", kinds.len())],
+    }
+}
+
+/// lines that hit every branch of the tokenizer and of the block writer
+const C10_LINES: [&str; 12] = ["---", "```scrut", "```", "````scrut {timeout: 5s}", "# c", "$ x", "out", "", "```py", "```scrut {  }", "``` scrut  {a: 1} ", "````"];
+const C10_LINES_MORE: [&str; 14] = ["--- ", " ---", "`````", "```scrut {a: 1} trailing", "é```", "```scrut\u{a0}{x}", "~~~", "#", "> y", "[1]", "\t", "```scrutx", "``", "```scrut{timeout: 1s}"];
+const C10_KINDS: [&[u64]; 6] = [&[1, 4], &[0, 2, 3], &[], &[8], &[7, 5], &[6, 1, 0, 4]];
+
+fn c10_run(ctx: &Ctx, prop: &str) {
+    let seed = ctx.seed;
+    let na = C10_LINES.len() as u64;
+    let maxl: u32 = if ctx.thorough { 5 } else { 4 };
+    let mut offs = vec![];
+    let mut total = 0u64;
+    for len in 0..=maxl {
+        offs.push((len, total));
+        total += na.pow(len) * 2;
+    }
+    ctx.run_stream("update-any-document-exhaustive", total, true, |idx| {
+        let (len, base) = *offs.iter().rev().find(|(_, b)| *b <= idx).unwrap();
+        let mut r = idx - base;
+        let variant = r % 2;
+        r /= 2;
+        let mut doc = String::new();
+        let mut h = 0u64;
+        for _ in 0..len {
+            doc.push_str(C10_LINES[(r % na) as usize]);
+            doc.push('\n');
+            h = h.wrapping_mul(31).wrapping_add(r % na);
+            r /= na;
+        }
+        let kinds = C10_KINDS[((h + variant * 3) % C10_KINDS.len() as u64) as usize];
+        Some(c10_case(prop, &doc, kinds, "any-exhaustive"))
+    });
+    ctx.run_stream("update-any-document-random", if ctx.thorough { 300_000 } else { 20_000 }, false, |idx| {
+        let mut rng = Rng::fork(seed, 53, idx);
+        let n = rng.range(0, 14);
+        let mut doc = String::new();
+        let style = rng.below(8);
+        for k in 0..n {
+            let l = if rng.chance(2, 3) { *rng.pick(&C10_LINES) } else { *rng.pick(&C10_LINES_MORE) };
+            doc.push_str(l);
+            let last = k + 1 == n;
+            match style {
+                0 => doc.push_str("\r\n"),
+                1 if rng.chance(1, 6) => doc.push_str("\r\r\n"),
+                2 if rng.chance(1, 4) => doc.push_str("\r\n"),
+                3 if last => {}
+                4 if last => doc.push('\r'),
+                _ => doc.push('\n'),
+            }
+        }
+        let nk = rng.range(0, 5);
+        let kinds: Vec<u64> = (0..nk).map(|_| if rng.chance(1, 12) { 5 } else { *rng.pick(&[0u64, 1, 2, 3, 4, 6, 7, 8]) }).collect();
+        Some(c10_case(prop, &doc, &kinds, "any-random"))
+    });
+    ctx.run_stream("update-documents-random", if ctx.thorough { 100_000 } else { 6_000 }, false, |idx| {
+        let mut rng = Rng::fork(seed, 52, idx);
+        Some(update_case(prop, &mut rng, idx))
+    });
+    ctx.run_stream("update-witnesses", 1, true, |_| {
+        Some(update_witness(
+            prop,
+            "greedy-run-yields-to-new-neighbour",
+            "# t\n\n```scrut\n$ cmd\na* (glob+)\nzzz\n*2 (glob)\n```\n",
+            vec![(b"a1\na2\nb2\n".to_vec(), 0)],
+        ))
+    });
+}
+
+fn c10_replay(doc: &str, gens: &str) -> bool {
+    let doc = String::from_utf8_lossy(&unhex(doc)).to_string();
+    println!("document: {:?}", doc);
+    for (i, g) in gens.split(',').enumerate() {
+        match g {
+            "-" => println!("no outcomes"),
+            "!" => println!("generated {i}: <generate_testcase fails>"),
+            "e" => println!("generated {i}: \"\""),
+            g => println!("generated {i}: {:?}", String::from_utf8_lossy(&unhex(g))),
+        }
+    }
+    // the outcomes themselves are not part of the op: replay the reference reading
+    println!("reference segments: {:?}", c10_ref_segments(&doc));
+    true
 }
